@@ -24,6 +24,9 @@ type ldefT struct {
 	File   bool  `json:"file,omitempty"`
 	Files  []int `json:"files,omitempty"` // names (indices into nameTab) that have a file under this loader
 	Bad    []int `json:"bad,omitempty"`   // those of Files whose file cannot be instantiated (syntax error, wrong or no definition)
+	// Multi: the SmartPath of this file based loader serves SEVERAL namespaces (multiNs, ns.go): one file things/<name>.thg
+	// defines <name> in each of them and is instantiated under the name of the first one, whichever was asked for
+	Multi bool `json:"multi,omitempty"`
 }
 
 func (l ldefT) isBad(n int) bool {
@@ -40,6 +43,9 @@ type opT struct {
 	L    int    `json:"l"`
 	N    int    `json:"n"`
 	V    int    `json:"v,omitempty"`
+	// S: the namespace of the name. 0: type (every program but those of ns.go); 1, 2, 3: the namespaces multiNs[S-1] that
+	// the SmartPath of a Multi loader serves (1 = its first namespace)
+	S int `json:"s,omitempty"`
 	// Discover: the predicate is interested in the names Ns only; for each of them that it is offered it asks loader L
 	// itself (Ask 1: HasEntry, 2: LoadEntry, 3: px.Load; 0: it looks at the name only)
 	Ask int   `json:"ask,omitempty"`
@@ -66,7 +72,20 @@ func (o opT) String() string {
 		}
 		return fmt.Sprintf("Discover(l%d,predicate:%s,%v)", o.L, askTab[o.Ask], ns)
 	}
+	if o.S != 0 {
+		return fmt.Sprintf("%s(l%d,%s/%s)", o.Kind, o.L, multiNs[o.S-1], nameTab[o.N])
+	}
 	return fmt.Sprintf("%s(l%d,%s)", o.Kind, o.L, nameTab[o.N])
+}
+
+// tn: the typed name that the operation is about
+func (o opT) tn() px.TypedName { return sname(o.S, o.N) }
+
+func sname(s, n int) px.TypedName {
+	if s == 0 {
+		return tname(n)
+	}
+	return px.NewTypedName(multiNs[s-1], nameTab[n])
 }
 
 func (o opT) gallina() string {
@@ -84,7 +103,7 @@ func (o opT) gallina() string {
 func progKey(c caseT) string {
 	var b strings.Builder
 	for _, l := range c.Cfg {
-		fmt.Fprintf(&b, "%d,%v,%v,%v;", l.Parent, l.File, l.Files, l.Bad)
+		fmt.Fprintf(&b, "%d,%v,%v,%v,%v;", l.Parent, l.File, l.Files, l.Bad, l.Multi)
 	}
 	b.WriteString("|")
 	for _, th := range c.Prog {
@@ -125,6 +144,9 @@ var valTab = []valInfo{
 
 // the value that the file of name n under loader d defines (k: which instantiation; 0 in every correct run)
 func fileVid(d, n, k int) int { return 100 + 10*d + n + 1000*k }
+
+// the same for the name in namespace s of a Multi loader (s = 0: fileVid)
+func fileVidS(d, n, s, k int) int { return fileVid(d, n, k) + 50*s }
 
 func gVal(id int) string {
 	if id >= 0 && id < len(valTab) && valTab[id].cls >= 0 {
@@ -254,6 +276,7 @@ func countingInstantiator(ctx px.Context, l loader.ContentProvidingLoader, tn px
 func setupRuntime(out string) {
 	fsRoot = filepath.Join(out, "fs")
 	pcore.Do(func(c px.Context) {})
+	registerMultiPath()
 	loader.SmartPathFactories[px.PuppetDataTypePath] = func(l px.ModuleLoader, moduleNameRelative bool) loader.SmartPath {
 		return loader.NewSmartPath(`types`, `.pp`, l, []px.Namespace{px.NsType}, moduleNameRelative, false, countingInstantiator)
 	}
@@ -282,17 +305,27 @@ func fileDir(d int, l ldefT) string {
 			ks[i] += "b"
 		}
 	}
-	dir := filepath.Join(fsRoot, fmt.Sprintf("l%d-%s", d, strings.Join(ks, "_")))
+	sub, ext, pre := "types", ".pp", "l"
+	if l.Multi {
+		sub, ext, pre = "things", ".thg", "m"
+	}
+	dir := filepath.Join(fsRoot, fmt.Sprintf("%s%d-%s", pre, d, strings.Join(ks, "_")))
 	if !dirMade[dir] {
 		dirMade[dir] = true
-		if err := os.MkdirAll(filepath.Join(dir, "types"), 0o755); err != nil {
+		if err := os.MkdirAll(filepath.Join(dir, sub), 0o755); err != nil {
 			panic(err)
 		}
 		for _, n := range files {
-			p := filepath.Join(dir, "types", strings.ToLower(nameTab[n])+".pp")
+			p := filepath.Join(dir, sub, strings.ToLower(nameTab[n])+ext)
 			text := fmt.Sprintf("type %s = Integer[%d,%d]\n", nameTab[n], d, 100+n)
 			if l.isBad(n) {
 				text = badFileText(d, n)
+			}
+			if l.Multi {
+				text = fmt.Sprintf("good %d %d\n", d, n)
+				if l.isBad(n) {
+					text = fmt.Sprintf("bad %d %d\n", d, n)
+				}
 			}
 			if err := os.WriteFile(p, []byte(text), 0o644); err != nil {
 				panic(err)
@@ -323,7 +356,11 @@ func newWorld(cfg []ldefT) *world {
 			ld = px.StaticLoader()
 		case l.File:
 			dir = fileDir(d, l)
-			ld = px.NewFileBasedLoader(w.loaders[l.Parent], dir, ``, px.PuppetDataTypePath)
+			pt := px.PuppetDataTypePath
+			if l.Multi {
+				pt = multiPathType
+			}
+			ld = px.NewFileBasedLoader(w.loaders[l.Parent], dir, ``, pt)
 		default:
 			ld = px.NewParentedLoader(w.loaders[l.Parent])
 		}
@@ -348,9 +385,9 @@ func (w *world) chain(l int) []int {
 }
 
 // badLevel: some file based loader in the chain of l has a file for n that cannot be instantiated
-func (w *world) badLevel(l, n int) bool {
+func (w *world) badLevel(l, n, s int) bool {
 	for _, d := range w.chain(l) {
-		if w.cfg[d].File && w.cfg[d].isBad(n) {
+		if w.cfg[d].File && w.cfg[d].isBad(n) && w.cfg[d].Multi == (s != 0) {
 			return true
 		}
 	}
@@ -359,9 +396,9 @@ func (w *world) badLevel(l, n int) bool {
 
 // fileLevel: the file based loader in the chain of l that has a file for n which defines n (-1: none).  A loader
 // whose file for n is broken never binds n: loads go on to the loaders below it once the failure is cached.
-func (w *world) fileLevel(l, n int) int {
+func (w *world) fileLevel(l, n, s int) int {
 	for _, d := range w.chain(l) {
-		if w.cfg[d].File && !w.cfg[d].isBad(n) {
+		if w.cfg[d].File && !w.cfg[d].isBad(n) && w.cfg[d].Multi == (s != 0) {
 			for _, f := range w.cfg[d].Files {
 				if f == n {
 					return d
@@ -380,6 +417,16 @@ func (w *world) resolve(results [][]opRes) {
 			continue
 		}
 		for _, n := range l.Files {
+			if l.Multi {
+				for s := 1; s <= len(multiNs); s++ {
+					if e := w.loaders[d].GetEntry(sname(s, n)); e != nil && e.Value() != nil {
+						if _, known := w.ptr[e.Value()]; !known {
+							w.ptr[e.Value()] = fileVidS(d, n, s, 0)
+						}
+					}
+				}
+				continue
+			}
 			if e := w.loaders[d].GetEntry(tname(n)); e != nil && e.Value() != nil {
 				if _, known := w.ptr[e.Value()]; !known {
 					w.ptr[e.Value()] = fileVid(d, n, 0)
@@ -397,6 +444,9 @@ func (w *world) resolve(results [][]opRes) {
 			if !ok {
 				w.extra++
 				id = fileVid(0, 0, w.extra)
+				if ft, isThing := r.raw.(*fileThing); isThing {
+					id = fileVidS(ft.d, ft.n, ft.s, w.extra)
+				}
 				if t, isType := r.raw.(px.Type); isType {
 					for n, nm := range nameTab {
 						if strings.EqualFold(nm, t.Name()) {
@@ -454,7 +504,7 @@ func (w *world) apply(c px.Context, o opT) (res opRes) {
 	case "Load":
 		var v interface{}
 		var ok bool
-		c.DoWithLoader(l, func() { v, ok = px.Load(c, tname(o.N)) })
+		c.DoWithLoader(l, func() { v, ok = px.Load(c, o.tn()) })
 		if !ok {
 			if v != nil {
 				return opRes{Kind: "fault", Text: "Load: not found, yet a value"}
@@ -466,13 +516,13 @@ func (w *world) apply(c px.Context, o opT) (res opRes) {
 		}
 		return opRes{Kind: "found", Found: true, raw: v}
 	case "Define":
-		e := l.(px.DefiningLoader).SetEntry(tname(o.N), px.NewLoaderEntry(valTab[o.V].v, nil))
+		e := l.(px.DefiningLoader).SetEntry(o.tn(), px.NewLoaderEntry(valTab[o.V].v, nil))
 		if e == nil || e.Value() == nil {
 			return opRes{Kind: "fault", Text: "SetEntry returned an entry without value"}
 		}
 		return opRes{Kind: "defined", raw: e.Value()}
 	case "Has":
-		return opRes{Kind: "bool", B: l.HasEntry(tname(o.N))}
+		return opRes{Kind: "bool", B: l.HasEntry(o.tn())}
 	case "Discover":
 		want := map[string]int{}
 		for _, n := range o.Ns {
